@@ -154,6 +154,36 @@ theorem used_up_never_found (e : Expectation) (m : String) (args : List Val) (h 
     findExpected [e] m args = none := by
   simp [findExpected, h]
 
+/-- **Times(n)**: an expectation registered for `n + 1` repetitions matches exactly `n + 1` calls -/
+theorem times_exact (m : String) (args : List Val) : ∀ (n : Nat) (e : Expectation) (calls : List (String × List Val)),
+    e.matchesCall m args = true → e.repeatability = (n : Int) + 1 →
+    ∃ mk', callN m args (n + 1) ⟨[e], calls⟩ = some mk' ∧ called mk' m args = none
+  | 0, e, calls, hm, hr => by
+    have h1 := called_single e m args calls hm (by omega)
+    refine ⟨⟨[consume e], calls ++ [(m, args)]⟩, by simp [callN, h1], ?_⟩
+    exact called_used_up _ _ _ _ (by simp [consume, hr])
+  | n + 1, e, calls, hm, hr => by
+    have h1 := called_single e m args calls hm (by omega)
+    have hr' : (consume e).repeatability = (n : Int) + 1 := by
+      simp only [consume, hr]
+      have : ¬ ((n : Int) + 1 + 1 = 1) := by omega
+      have h2 : (n : Int) + 1 + 1 > 1 := by omega
+      simp [this, h2]
+    obtain ⟨mk', hk, hnone⟩ := times_exact m args n (consume e) (calls ++ [(m, args)])
+      (by rw [consume_matches]; exact hm) hr'
+    refine ⟨mk', ?_, hnone⟩
+    simp only [callN, h1]
+    exact hk
+
+/-- an expectation without a repetition limit matches any number of calls -/
+theorem unlimited_always_matches (m : String) (args : List Val) : ∀ (k : Nat) (e : Expectation) (calls : List (String × List Val)),
+    e.matchesCall m args = true → e.repeatability = 0 → (callN m args k ⟨[e], calls⟩).isSome = true
+  | 0, _, _, _, _ => rfl
+  | k + 1, e, calls, hm, hr => by
+    have h1 := called_single e m args calls hm (by omega)
+    simp only [callN, h1]
+    exact unlimited_always_matches m args k (consume e) _ (by rw [consume_matches]; exact hm) (by simp [consume, hr])
+
 /-- **cleanup**: an expectation that no call matched makes `AssertExpectations` fail -/
 theorem cleanup_reports_unmet (mk : Mock) (e : Expectation) (he : e ∈ mk.expected) (h0 : e.totalCalls = 0)
     (hc : ∀ c ∈ mk.calls, e.matchesCall c.1 c.2 = false) : assertExpectations mk = false := by
